@@ -132,3 +132,197 @@ Proof.
     + lia.
 Qed.
 End Tree2.
+
+(* ------------------------------------------------------- out-of-place calls *)
+Section Oop.
+Context {T : Type} `{Num T} `{Sqrt T}.
+Notation heap := (heap T).
+Notation val := (list (list T)).
+
+Fixpoint no_diag (e : op T) : Prop :=
+  match e with
+  | OLeaf _ => True
+  | OSum a b | OComp a b | OPw a b => no_diag a /\ no_diag b
+  | OVecSum a _ | OLScal a _ | ORScal a _ | OLVec a _ | ORVec a _ => no_diag a
+  | ODiag _ _ _ => False
+  end.
+
+(* P(x): the result is a NEW element r holding the value; nothing that existed before is modified *)
+Definition post_oop (h : heap) (x : ref) (res : ref * heap) (v : val) : Prop :=
+  get (snd res) (fst res) = v /\ NoDup (fst res) /\ length (fst res) = length x
+  /\ below (next (snd res)) (fst res) /\ above (next h) (fst res)
+  /\ (forall i, i < next h -> mem (snd res) i = mem h i) /\ next h <= next (snd res).
+
+Lemma leaf_oop_ok (l : leaf T) (h : heap) x : wf_leaf (length x) l -> below (next h) x ->
+  post_oop h x (leaf_oop l x h) (leaf_pure l (get h x)).
+Proof.
+  intros Hwf Hbx. unfold leaf_oop, post_oop.
+  assert (Hgen : post_oop h x (let '(t, h1) := fresh (length x) h in (t, leaf_ip l x t h1)) (leaf_pure l (get h x))).
+  { exec. unfold post_oop; cbn [fst snd].
+    assert (P : pre (bump (length x) h) x (seq (next h) (length x))).
+    { unfold pre; refine (conj _ (conj _ (conj _ (conj _ _)))).
+      - apply seq_NoDup.
+      - eapply below_mono; [exact Hbx | cbn; lia].
+      - apply below_seq; cbn; lia.
+      - right; intros i Hi Hj; apply in_seq in Hj; pose proof (below_in _ _ _ Hbx Hi); lia.
+      - rewrite seq_length; reflexivity. }
+    destruct (leaf_ok l _ _ _ Hwf P) as [A B C]. cbn [next bump] in *.
+    repeat split.
+    - exact A.
+    - apply seq_NoDup.
+    - apply seq_length.
+    - eapply below_mono; [apply below_seq; reflexivity | lia].
+    - apply above_seq; lia.
+    - intros i Hi. rewrite B; [reflexivity | lia | intros Hj; apply in_seq in Hj; lia].
+    - lia. }
+  destruct l; try exact Hgen; clear Hgen; exec; cbn [fst snd leaf_pure wf_leaf] in *.
+  all: absorb; repeat split; cbn [fst snd]; try apply seq_NoDup; try apply seq_length;
+    [ rdv; reflexivity | nxg; apply below_seq; lia | apply above_seq; lia
+    | let i := fresh "i" in let Hi := fresh "Hi" in intros i Hi; frv i; reflexivity | nxg; lia ].
+Qed.
+
+Definition kept (hv hn : heap) : Prop := forall i, i < next hv -> mem hn i = mem hv i.
+Lemma kept_get hv hn r : kept hv hn -> below (next hv) r -> get hn r = get hv r.
+Proof. intros K Hb; apply get_ext; intros i Hi; apply K; eapply below_in; eauto. Qed.
+End Oop.
+
+Ltac absorb_oop IH :=
+  match goal with
+  | |- context [run_oop ?a ?x ?hv] => is_var hv;
+      let hn := fresh "h" in let r := fresh "r" in let Q := fresh "Q" in let Hb := fresh "Hb" in
+      let Wf := fresh "Wf" in let G := fresh "G" in let K := fresh "K" in let N := fresh "N" in
+      assert (Hb : below (next hv) x) by below_tac;
+      assert (Wf : wfop (length x) a) by (autorewrite with len; first [assumption | congruence]);
+      pose proof (IH hv x Wf Hb) as Q; clear Wf Hb;
+      destruct (run_oop a x hv) as [r hn]; unfold post_oop in Q; cbn [fst snd] in Q;
+      let Qnd := fresh "Qnd" in let Ql := fresh "Ql" in let Qb := fresh "Qb" in let Qa := fresh "Qa" in
+      destruct Q as (G & Qnd & Ql & Qb & Qa & K & N); autorewrite with len in Ql;
+      change (kept hv hn) in K;
+      assert (next hn = next hv + (next hn - next hv)) as N' by lia; clear N;
+      generalize dependent (next hn - next hv); intros ? N; nxt; exec
+  end.
+Ltac rd2 :=
+  first [ rd1
+        | match goal with
+          | G : get ?hn ?r = _ |- context [get ?hn ?r] => rewrite G
+          | K : kept ?hv ?hn |- context [get ?hn ?r] => rewrite (kept_get hv hn r K) by below_tac
+          end ].
+Ltac rdv2 := repeat rd2.
+Ltac fr2 i :=
+  first [ fr1 i
+        | match goal with K : kept ?hv ?hn |- context [mem ?hn i] => rewrite (K i) by (nxg; lia) end ].
+Ltac frv2 i := repeat fr2 i.
+Ltac finish_oop :=
+  unfold post_oop; cbn [fst snd];
+  refine (conj _ (conj _ (conj _ (conj _ (conj _ (conj _ _))))));
+  [ rdv2; try reflexivity
+  | first [assumption | apply seq_NoDup]
+  | len_tac
+  | below_tac
+  | first [ apply above_seq; nxg; lia | eapply above_mono; [eassumption | nxg; lia] ]
+  | let i := fresh "i" in let Hi := fresh "Hi" in intros i Hi; frv2 i; try reflexivity
+  | nxg; lia ].
+
+Section Oop2.
+Context {T : Type} `{Num T} `{Sqrt T}.
+Notation heap := (heap T).
+Notation val := (list (list T)).
+(* `left(x) + right(x)` out of place, but `out(=right) += tmp(=left)` in place: the two
+   agree because + and * of the carrier commute (true of R, Q and IEEE floats alike) *)
+Hypothesis add_comm : forall a b : T, nadd a b = nadd b a.
+Hypothesis mul_comm : forall a b : T, nmul a b = nmul b a.
+
+Lemma vmap2_comm (f : T -> T -> T) (a b : list T) : (forall u v, f u v = f v u) -> vmap2 f a b = vmap2 f b a.
+Proof. intros Hf; revert b; induction a as [|u a IH]; intros [|v b]; cbn; auto. rewrite Hf, IH; reflexivity. Qed.
+Lemma pzip_comm (f : list T -> list T -> list T) (a b : val) :
+  (forall u v, f u v = f v u) -> length a = length b -> pzip f a b = pzip f b a.
+Proof.
+  intros Hf; revert b; induction a as [|u a IH]; intros [|v b] Hl; cbn in *; try discriminate; auto.
+  rewrite Hf, IH by congruence; reflexivity.
+Qed.
+Lemma lin11_comm (u v : val) : length u = length v -> lin one one u v = lin one one v u.
+Proof. intros Hl; apply pzip_comm; [|exact Hl]. intros a b; apply vmap2_comm; intros; apply add_comm. Qed.
+Lemma emul_comm (u v : val) : length u = length v -> e2 nmul u v = e2 nmul v u.
+Proof. intros Hl; apply pzip_comm; [|exact Hl]. intros a b; apply vmap2_comm; intros; apply mul_comm. Qed.
+
+Theorem run_oop_ok (e : op T) : no_diag e -> forall (h : heap) x, wfop (length x) e -> below (next h) x ->
+  post_oop h x (run_oop e x h) (pure e (get h x)).
+Proof.
+  induction e as [l | a IHa b IHb | a IHa v | a IHa b IHb | a IHa b IHb | a IHa s | a IHa s | a IHa v | a IHa v
+                 | k a IHa b IHb]; intros Hnd h x Hwf Hbx; cbn [run_oop pure wfop no_diag] in *.
+  - apply leaf_oop_ok; assumption.
+  - destruct Hwf as [Hwa Hwb], Hnd as [Hna Hnb]. specialize (IHa Hna). specialize (IHb Hnb).
+    absorb_oop IHa. absorb_oop IHb. absorb. finish_oop.
+    apply lin11_comm. rewrite !(pure_length _ (length x)); autorewrite with len; auto.
+  - specialize (IHa Hnd). absorb_oop IHa. absorb. finish_oop.
+  - destruct Hwf as [Hwa Hwb], Hnd as [Hna Hnb]. specialize (IHa Hna). specialize (IHb Hnb).
+    absorb_oop IHb. absorb_oop IHa. unfold post_oop; cbn [fst snd].
+    refine (conj _ (conj _ (conj _ (conj _ (conj _ (conj _ _)))))).
+    + rdv2; try reflexivity.
+    + first [assumption | apply seq_NoDup].
+    + len_tac.
+    + below_tac.
+    + first [ apply above_seq; nxg; lia | eapply above_mono; [eassumption | nxg; lia] ].
+    + intros i Hi; frv2 i; try reflexivity.
+    + nxg; lia.
+  - destruct Hwf as [Hwa Hwb], Hnd as [Hna Hnb]. specialize (IHa Hna). specialize (IHb Hnb).
+    absorb_oop IHa. absorb_oop IHb. absorb. finish_oop.
+    apply emul_comm. rewrite !(pure_length _ (length x)); autorewrite with len; auto.
+  - specialize (IHa Hnd). absorb_oop IHa. absorb. finish_oop.
+  - specialize (IHa Hnd). exec. absorb. absorb_oop IHa. finish_oop.
+  - specialize (IHa Hnd). absorb_oop IHa. absorb. finish_oop.
+  - specialize (IHa Hnd). exec. absorb. absorb_oop IHa. finish_oop.
+  - destruct Hnd.
+
+Qed.
+End Oop2.
+
+(* ----------------------------------------------- statements used by Props.v *)
+Section Final.
+Context {T : Type} `{Num T} `{Sqrt T}.
+Notation heap := (heap T).
+
+Lemma aliased_gen (e : op T) (h : heap) (x : ref) :
+  wfop (length x) e -> NoDup x -> below (next h) x ->
+  get (run_ip e x x h) x = pure e (get h x)
+  /\ (forall i, i < next h -> ~ In i x -> mem (run_ip e x x h) i = mem h i).
+Proof.
+  intros Hwf Hnd Hb.
+  assert (P : pre h x x) by (unfold pre; auto 10).
+  destruct (run_ip_ok e h x x Hwf P) as [A B _]. split; assumption.
+Qed.
+
+Lemma separate_gen (e : op T) (h : heap) (x out : ref) :
+  wfop (length x) e -> NoDup out -> below (next h) x -> below (next h) out -> dis x out ->
+  length x = length out ->
+  get (run_ip e x out h) out = pure e (get h x)
+  /\ get (run_ip e x out h) x = get h x
+  /\ (forall i, i < next h -> ~ In i out -> mem (run_ip e x out h) i = mem h i).
+Proof.
+  intros Hwf Hnd Hbx Hbo Hd Hl.
+  assert (P : pre h x out) by (unfold pre; auto 10).
+  destruct (run_ip_ok e h x out Hwf P) as [A B _]. split; [exact A|]. split; [|exact B].
+  apply get_ext; intros i Hi. apply B; [exact (below_in _ _ _ Hbx Hi) | intros Hj; exact (Hd i Hi Hj)].
+Qed.
+
+Hypothesis add_comm : forall a b : T, nadd a b = nadd b a.
+Hypothesis mul_comm : forall a b : T, nmul a b = nmul b a.
+
+Lemma oop_gen (e : op T) (h : heap) (x : ref) :
+  no_diag e -> wfop (length x) e -> below (next h) x ->
+  get (snd (run_oop e x h)) (fst (run_oop e x h)) = pure e (get h x)
+  /\ above (next h) (fst (run_oop e x h))
+  /\ (forall i, i < next h -> mem (snd (run_oop e x h)) i = mem h i).
+Proof.
+  intros Hnd Hwf Hb. destruct (run_oop_ok add_comm mul_comm e Hnd h x Hwf Hb) as (A & _ & _ & _ & B & C & _).
+  auto.
+Qed.
+
+Lemma aliased_eq_oop_gen (e : op T) (h : heap) (x : ref) :
+  no_diag e -> wfop (length x) e -> NoDup x -> below (next h) x ->
+  get (run_ip e x x h) x = get (snd (run_oop e x h)) (fst (run_oop e x h)).
+Proof.
+  intros Hnd Hwf Hn Hb. destruct (aliased_gen e h x Hwf Hn Hb) as [A _].
+  destruct (oop_gen e h x Hnd Hwf Hb) as [B _]. congruence.
+Qed.
+End Final.
